@@ -133,7 +133,7 @@ def run(argv, env=None, stdin=None, timeout=WATCHDOG, rlimits=None, ignore_sigxf
         return Proc(None, dec(ex.stdout), dec(ex.stderr), True, time.time() - t0)
 
 
-def run_suspended(argv, env, event_log, pauses=(10.4,), marker='"ev":"deliver"', every=300, timeout=WATCHDOG, cwd=None):
+def run_suspended(argv, env, event_log, pauses=(10.4,), marker='"ev":"deliver"', every=300, timeout=WATCHDOG, cwd=None, while_stopped=None):
     """Runs the process and suspends it (SIGSTOP ... SIGCONT, what ^Z / a laptop lid / a frozen cgroup do to a long job) once the hook
     event log shows that blocks are being delivered; further pauses follow after `every` more events. Wall-clock time passes for the
     process while it does nothing, so code that depends on elapsed time (the progress report every 10 s) runs. Returns (Proc, pauses
@@ -166,6 +166,9 @@ def run_suspended(argv, env, event_log, pauses=(10.4,), marker='"ev":"deliver"',
             if p.poll() is not None:
                 break
             os.kill(p.pid, signal.SIGSTOP)
+            if while_stopped:
+                time.sleep(0.02)          # let the stop take effect before the surroundings change
+                while_stopped()
             time.sleep(pause)
             alive = p.poll() is None
             os.kill(p.pid, signal.SIGCONT)
